@@ -70,6 +70,50 @@ def check(rep, tier, seed):
                              both_builds=(tier == "thorough"))
     impl = dict(zip(dict.fromkeys(cases), outs[False]))
 
+    # entries that are not ordinary numbers: subnormal values (sums of them are exact: oracle on the bit patterns) ...
+    sub = []
+    for sh in [s_ for s_ in shapes if 2 <= len(s_) <= 3 and elements(s_) <= 30][:: 9]:
+        ks = [rng.randrange(0, 500) for _ in range(elements(sh))]          # value k * 2^-1074: the bit pattern is k itself
+        for a in range(len(sh)):
+            sub.append((sh, ks, a))
+    so_s = run_impl(["marg %s %s %d" % (fmt(sh), ",".join("0x%016x" % k for k in ks), a) for sh, ks, a in sub])
+    for (sh, ks, a), o in zip(sub, so_s):
+        rep.count("marginalize-subnormal", "%s axis %d" % (fmt(sh), a), True)
+        want = {}
+        for idx, k in zip(itertools.product(*[range(n) for n in sh]), ks):
+            key = idx[:a] + idx[a + 1:]
+            want[key] = want.get(key, 0) + k
+        wl = ["0x%016x" % want[k_] for k_ in itertools.product(*[range(n) for j_, n in enumerate(sh) if j_ != a])]
+        t = o.split()
+        if len(t) != 3 or t[0] != "OK" or t[2].split(",") != wl:
+            rep.fail(kind="property-oracle", cls="marginalize:subnormal", case="marg %s axis %d, subnormal values k*2^-1074 with k = %s" % (fmt(sh), a, ks), observed=o[:300],
+                     expected="OK ... " + ",".join(wl)[:250], detail="subnormal entries are numbers like any other: the marginal is their exact sum")
+    # ... and infinities / NaN, which a sum must carry along (oracle: the same sums in IEEE arithmetic on integers)
+    import math
+    spec = []
+    for sh in ([2, 3], [3, 2, 2], [2, 2, 3], [4, 3]):
+        for _ in range(4):
+            vals = [float(rng.randrange(0, 50)) for _ in range(elements(sh))]
+            for k_ in rng.sample(range(len(vals)), 2):
+                vals[k_] = rng.choice([math.inf, -math.inf, math.nan, math.inf])
+            for a in range(len(sh)):
+                spec.append((sh, vals, a))
+    so_ = run_impl(["marg %s %s %d" % (fmt(sh), ",".join("inf" if v == math.inf else "-inf" if v == -math.inf else "nan" if v != v else str(int(v)) for v in vals), a) for sh, vals, a in spec])
+    for (sh, vals, a), o in zip(spec, so_):
+        rep.count("marginalize-nonfinite", "%s axis %d" % (fmt(sh), a), True)
+        idxs = list(itertools.product(*[range(n) for n in sh]))
+        want = {}
+        for idx, v in zip(idxs, vals):
+            key = idx[:a] + idx[a + 1:]
+            want[key] = want.get(key, 0.0) + v
+        wl = [want[k_] for k_ in itertools.product(*[range(n) for j, n in enumerate(sh) if j != a])]
+        t = o.split()
+        got = [float(parse_value(x)) if not isinstance(parse_value(x), str) else float(parse_value(x)) for x in t[2].split(",")] if len(t) == 3 and t[0] == "OK" else None
+        same = got is not None and len(got) == len(wl) and all((g != g and w != w) or g == w for g, w in zip(got, wl))
+        if not same:
+            rep.fail(kind="property-oracle", cls="marginalize:nonfinite", case="marg %s axis %d values %s" % (fmt(sh), a, vals), observed=o[:300], expected=str(wl)[:300],
+                     detail="a marginal cell must be the IEEE sum of its entries: infinities and NaN are carried along, not dropped")
+
     # one at a time on the implementation: remove axes[0], renumber, continue
     chain_cases = []
     for sh, data, axes in meta:
